@@ -383,6 +383,23 @@ func genRoots(rng *rand.Rand, g *model.Graph, names map[int][]byte, kinds string
 			refs[i].Walk = !strings.HasPrefix(refs[i].Name, "refs/tags/")
 		}
 	}
+	// a symbolic reference (as refs/remotes/origin/HEAD after a clone): listed with its target's object
+	if rng.Intn(3) == 0 {
+		t := refs[rng.Intn(len(refs))]
+		name := []string{"refs/remotes/origin/HEAD", "refs/heads/zz-alias", "refs/misc/alias", "refs/tags/zz-alias"}[rng.Intn(4)]
+		walk := true
+		switch mode {
+		case 1:
+			walk = !strings.HasPrefix(name, "refs/misc/")
+		case 2:
+			walk = false
+		case 3:
+			walk = strings.HasPrefix(name, "refs/heads/")
+		case 4:
+			walk = !strings.HasPrefix(name, "refs/tags/")
+		}
+		refs = append(refs, cases.RootSpec{O: t.O, Walk: walk, IsRef: true, Name: name, Kind: "plain", Symref: t.Name})
+	}
 	sort.SliceStable(refs, func(i, j int) bool { return refs[i].Name < refs[j].Name })
 	roots := append(refs, explicit...)
 	for _, x := range explicit {
